@@ -268,6 +268,15 @@ func colliders3(th bool) []coll3 {
 	for _, s := range ref.Shapes3(th) {
 		out = append(out, coll3{s.Name, s.Obj.(model3d.Collider), s.SDF, s.Center, s.Extent, s.Feature, true, 0, nil, nil})
 	}
+	// every fourth primitive again at millimetre and kilometre scale (exact power-of-two images of the unit-scale
+	// shapes: a different answer can only come from an absolute threshold in the intersection code)
+	for _, k := range []float64{1.0 / 1024, 1024} {
+		for i, s := range ref.Shapes3Scaled(false, k) {
+			if i%4 == 0 {
+				out = append(out, coll3{s.Name, s.Obj.(model3d.Collider), s.SDF, s.Center, s.Extent, s.Feature, true, 0, nil, nil})
+			}
+		}
+	}
 	for _, nm := range cat.Closed3(true) {
 		m := nm.Mesh()
 		mn, mx := m.Min(), m.Max()
